@@ -7,6 +7,10 @@ from ..extract import (HEADER, ExtractError, Tr, ast_dump, body_of, const_int, f
 
 NAME = "Timer"
 
+# clang node id of an `if` condition -> name of the guard generated from it.  Filled by `generate()`; read by
+# vlib/gen/timerskel.py, which names the branches of its statement skeletons after the guards located here.
+SITES = {}
+
 
 # ----------------------------------------------------------------------------- canonical keys of leaves
 def ckey(n):
@@ -98,6 +102,7 @@ def init_of(var):
 
 
 def generate():
+    SITES.clear()
     out = [HEADER % "muduo/net/TimerQueue.cc, muduo/net/Timer.cc, muduo/net/Timer.h, muduo/base/Timestamp.h",
            "namespace MuduoVerif.Gen.Timer\n"]
     # ---------------- constants
@@ -259,6 +264,7 @@ def generate():
         raise ExtractError("insert: earliestChanged is no longer initialised with false")
     used = set()
     g = guard(if_cond(ifs[0]), {"it == timers_.end()": "empty", "when < it->first": "when < first"}, used)
+    SITES[if_cond(ifs[0]).get("id")] = "insertEarliestChanged"
     out.append(prop_def("insertEarliestChanged", [("empty", "Bool"), ("when", "Int"), ("first", "Int")], unparen(g),
                         "`TimerQueue::insert`: the new timer becomes the earliest one (`first` = deadline of `timers_.begin()`)"))
 
@@ -271,6 +277,7 @@ def generate():
     if ckey(body) != "resetTimerfd(timerfd_,timer->expiration())":
         raise ExtractError("addTimerInLoop: the `if` no longer calls resetTimerfd(timerfd_, timer->expiration()): %s" % ckey(body))
     g = guard(if_cond(ifs[0]), {"earliestChanged": "earliestChanged"}, set())
+    SITES[if_cond(ifs[0]).get("id")] = "addRearms"
     out.append(prop_def("addRearms", [("earliestChanged", "Bool")], unparen(g),
                         "`TimerQueue::addTimerInLoop`: call `resetTimerfd(timerfd_, timer->expiration())`"))
 
@@ -286,6 +293,8 @@ def generate():
         raise ExtractError("cancelInLoop: expected `if (found) {..} else if (calling) {..}`")
     g1 = guard(if_cond(top[0]), {"it != activeTimers_.end()": "found"}, set())
     g2 = guard(if_cond(kids(top[0])[2]), {"callingExpiredTimers_": "calling"}, set())
+    SITES[if_cond(top[0]).get("id")] = "cancelErases"
+    SITES[if_cond(kids(top[0])[2]).get("id")] = "cancelRemembers"      # the `else if`: reached with ¬ found
     out.append(prop_def("cancelErases", [("found", "Bool")], unparen(g1),
                         "`TimerQueue::cancelInLoop`: the (pointer, sequence) pair is in `activeTimers_`: erase from both sets and delete"))
     out.append(prop_def("cancelRemembers", [("found", "Bool"), ("calling", "Bool")], "¬ (%s) ∧ %s" % (unparen(g1), g2),
@@ -308,6 +317,7 @@ def generate():
         raise ExtractError("reset: the key is no longer (it.second, it.second->sequence())")
     g = guard(if_cond(ifs[0]), {"it.second->repeat()": "repeat_",
                                 "cancelingTimers_.find(timer) == cancelingTimers_.end()": "¬ (cancelled)"}, set())
+    SITES[if_cond(ifs[0]).get("id")] = "resetRestarts"
     out.append(prop_def("resetRestarts", [("repeat_", "Bool"), ("cancelled", "Bool")], unparen(g),
                         "`TimerQueue::reset`: restart and re-insert (true) or delete (false); `cancelled` = the pair is in `cancelingTimers_`"))
     thenb = [ckey(s) for s in kids(kids(ifs[0])[1])]
@@ -316,11 +326,13 @@ def generate():
     if len([x for x in walk(kids(ifs[0])[2]) if x.get("kind") == "CXXDeleteExpr"]) != 1:
         raise ExtractError("reset: the else branch no longer deletes the timer")
     g = guard(if_cond(ifs[1]), {"timers_.empty()": "empty"}, set())
+    SITES[if_cond(ifs[1]).get("id")] = "resetHasNext"
     l, r = assignment(single_stmt(kids(ifs[1])[1]))
     if l != "nextExpire" or ckey(r) != "timers_.begin()->second->expiration()":
         raise ExtractError("reset: nextExpire is no longer timers_.begin()->second->expiration()")
     out.append(prop_def("resetHasNext", [("empty", "Bool")], unparen(g), "`TimerQueue::reset`: `if (!timers_.empty())`"))
     g = guard(if_cond(ifs[2]), {"nextExpire.valid()": "timestampValid nextExpire"}, set())
+    SITES[if_cond(ifs[2]).get("id")] = "resetRearms"
     if ckey(single_stmt(kids(ifs[2])[1])) != "resetTimerfd(timerfd_,nextExpire)":
         raise ExtractError("reset: the last `if` no longer calls resetTimerfd(timerfd_, nextExpire)")
     out.append(prop_def("resetRearms", [("nextExpire", "Int")], unparen(g),
